@@ -645,14 +645,14 @@ def selftest():
 
 
 FAMILIES = [
-    Family("inputs", evaluate, strategy=strat_inputs, n_quick=480, n_thorough=4000, shards_quick=5, shards_thorough=16,
+    Family("inputs", evaluate, strategy=strat_inputs, n_quick=960, n_thorough=4000, shards_quick=5, shards_thorough=16,
            required_labels=["in-getter=int", "in-getter=str", "in-getter=none", "kind=method", "kind=classmethod",
                             "async", "options-decisive", "varargs-extras", "deco=check_io",
                             "expect=rejected-at-input", "no-known-trigger"]),
-    Family("outputs", evaluate, strategy=strat_outputs, n_quick=400, n_thorough=3000, shards_quick=3, shards_thorough=8,
+    Family("outputs", evaluate, strategy=strat_outputs, n_quick=800, n_thorough=3000, shards_quick=3, shards_thorough=8,
            required_labels=["out-getter=none", "out-getter=int", "out-getter=str", "out-getter=callable", "async",
                             "expect=rejected-at-output", "options-decisive"]),
-    Family("types", evaluate, strategy=strat_types, n_quick=480, n_thorough=4000, shards_quick=5, shards_thorough=16,
+    Family("types", evaluate, strategy=strat_types, n_quick=960, n_thorough=4000, shards_quick=5, shards_thorough=16,
            required_labels=["ann=M", "ann=UnionMM2", "ann=OptM", "varargs-extras", "sig:varkw", "kind=method",
                             "expect=rejected-at-input", "expect=rejected-at-output", "options-decisive"]),
 ]
